@@ -86,8 +86,31 @@ class Driver:
         out = buf[G : G + n].data
         self.ncalls += 1
         self.run.ev()
+        isz = desc.get('itemsize', 1)
+        if isz in (2, 4, 8) and n and n % isz == 0 and self.ncalls % 4 == 0:
+            # the destination is the caller's array: items of the stored width, one- or two-dimensional
+            typed = buf[G : G + n].view(f'u{isz}')
+            if self.ncalls % 8 == 0 and (n // isz) % 3 == 0:
+                typed = typed.reshape(-1, 3)
+            out = typed.data
+            self.run.count('decodes_into_a_typed_destination')
+        if self.ncalls % 5 == 2 and len(chunks) > 1:
+            # a reader that recycles one buffer for all its chunks (readinto style): a chunk's bytes are only valid until the next one is asked for
+            src = [bytes(c) for c in chunks]
+            scratch = bytearray(max(len(c) for c in src) or 1)
+
+            def recycled():
+                for c in src:
+                    scratch[: len(c)] = c
+                    yield memoryview(scratch)[: len(c)]
+                    scratch[:] = b'\xa5' * len(scratch)
+
+            it = recycled()
+            self.run.count('decodes_from_a_recycled_read_buffer')
+        else:
+            it = iter(chunks)
         try:
-            ret = self.comp.decompress(iter(chunks), out)
+            ret = self.comp.decompress(it, out)
         except Exception as e:
             return self.run.violation('chunking-' + type(e).__name__, dict(stream=sid, error=f'{type(e).__name__}: {e}'[:300], chunk_lengths=[len(c) for c in chunks][:60], **desc))
         got = bytes(buf[G : G + n])
